@@ -79,6 +79,8 @@ m("c07-f15-no-superset-check", L310, "        if first == details and addresses.
 m("c07-f15-stacktop-read-twice", L310, "    # references the hard way.\n    if stacktop == 0:", "    # references the hard way.\n    if frame_raw.f_stacktop == 0:", "C07", "racing310,racing39")
 m("c07-f15-no-resume-check", L310, "        assert frame_raw.f_stacktop == stacktop and frame.f_lasti == lasti", "        pass", "C07", "racing310,racing39")
 m("c07-f15-lookup-before-first-read-only", L310, "        first, _ = _inspect_frame(frame)\n        details, is_resolved = _inspect_frame(frame)", "        first, is_resolved = details, False", "C07", "racing310,racing39")
+m("c14-f16-revert", GL, "                if task.context is message.context or (\n                    task_frame is not None\n                    and task_frame.f_locals.get(\"self\") is message\n                ):", "                if task.context is message.context:", "C14", "")
+m("c14-f17-revert", GL, "            trio_token = next_inner.pyframe.f_locals.get(\"trio_token\")\n", "            return ()\n", "C14", "")
 m("c07-thread-alive-check", GL, "        if inner_frame is None or not thread.is_alive() or not was_alive:", "        if inner_frame is None:", "C07", "blocked312,racing312")
 # ---- C08 -------------------------------------------------------------------
 m("c08-async-skip-insns", LL, "            skip_insns = 7 if is_async else 1", "            skip_insns = 6 if is_async else 1", "C08", "w312,w311")
@@ -124,7 +126,7 @@ m("c15-await-elaborator", GL, '        return frame.pyframe.f_locals.get("coro")
 # ---- C16 -------------------------------------------------------------------
 m("c16-f5-revert", EX, "                if own_frame is not current:\n                    origin = None", "                if own_frame is None:\n                    origin = None", "C16", "w312")
 m("c16-better-origin-always", EX, "        if isinstance(candidate, typelist) or not isinstance(fallback, typelist):\n            return candidate\n        return fallback", "        return candidate", "C16", "w312")
-m("c16-outermost-skips-hidden", EX, "            return next(extract_iter(stackitem, errors))", "            it = extract_iter(stackitem, errors)\n            f = next(it)\n            while f.hide:\n                f = next(it)\n            return f", "C16", "w312")
+m("c16-outermost-skips-hidden", EX, "            return next(extract_iter(stackitem, errors))", "            it = extract_iter(stackitem, errors)\n            f = next(it)\n            while f.hide:\n                f = next(it)\n            return f", "C16", "hooks312,hooks39")
 # ---- C17 -------------------------------------------------------------------
 m("c17-no-lock", GL, "    with glue_lock:\n        module_items", "    if True:\n        module_items", "C17", "thr312")
 m("c17-prefer-builtin", GL, "                if module_fn is not None:\n                    module_fn()\n                elif builtin_fn is not None:\n                    builtin_fn()", "                if builtin_fn is not None:\n                    builtin_fn()\n                elif module_fn is not None:\n                    module_fn()", "C17", "hist312")
